@@ -4,6 +4,8 @@ import ExprModel.Proofs.LocBridge
 import ExprModel.Proofs.ParserLocs
 import ExprModel.Proofs.CompileLocs
 import ExprModel.Props.C01
+import ExprModel.Proofs.StepBoundary
+import ExprModel.Walk.Spec
 /-
 C13, end to end: the layers of Props/C13.lean (source / snippet / bind, location facts, location map)
 composed with the lexer (C12), parser (C11) and compiler / VM (C01) models.
@@ -181,15 +183,79 @@ theorem runtime_error_location_partial (c : Cfg) (Pg : Prog) (len : Nat) (ctx : 
   obtain ⟨s1, s2, hst, _, hstep, _⟩ := hconf s hip hlim hsc _ _ hev
   exact ⟨s1, s2, hst, hstep, fun P hn => error_location_is_a_node cfg n cp hc s1.ip (hb s1 hst) P hn⟩
 
-/-- what remains: (a) the run-time invariant `hb` (every `ip` reached from 0 in a compiled program is
-    an opcode offset) and `s2.pp = s1.ip` for the model's `step`; (b) the sharper statement that the
-    failing step lies inside the code fragment of the innermost node whose evaluation fails, i.e. that
-    the reported location is that node's location — it needs the simulation of C01 (`Sim`) to carry the
-    byte range of each node's code through its error case. -/
-def runtime_error_location_goal : Prop :=
-  ∀ (c : Cfg) (cfg : CompCfg) (n : Node) (cp : Compiled), compileProgram cfg n = .ok cp →
+/-! ### the run-time invariant, proved: every `ip` a compiled program reaches is an opcode offset -/
+
+/-- **`pp` of a failing step is the offset of its opcode** (all 52 opcodes of the VM model) -/
+theorem failing_step_pp {c : Cfg} {Pg : Prog} {s1 s2 : VM} {e : ErrClass} (h : step c Pg s1 = .error (e, s2)) :
+    s2.pp = s1.ip := step_error_pp h
+
+/-- **In a compiled program every reachable `ip` is an instruction boundary**: a successful step leaves
+    `ip` right after its instruction or at its jump target (`step_ip`), and the compiler's jumps land on
+    boundaries (C05 `compileProgram_frag`). -/
+theorem reachable_ip_is_boundary (cfg : CompCfg) (hcfg : Bc.CompCfgOk cfg) (n : Node) (cp : Compiled)
+    (hc : compileProgram cfg n = .ok cp) (hfit : Refine.FitsU16 cp.code) (c : Cfg) (s s1 : VM)
+    (hs : s.ip = 0) (hst : Refine.Steps c (Refine.progOf cp) s s1) :
+    instrBoundary (Bc.instrs cp.code) s1.ip = true :=
+  steps_boundary hfit (Bc.compileProgram_frag cfg hcfg n cp hc).1.jumps hst (by rw [hs]; exact Bc.boundary_zero' _ _ rfl)
+
+/-- **`runtime_error_location`**: whenever a run of a compiled program fails (with anything but the
+    model's own `fuel`), the location the VM reports — `Locations[pp]` of the state the failing step
+    reports — is the location of a node of the tree, or 0:0 when the failing opcode is the `OpCast`
+    epilogue.  Exclusion as in C01: operands fit 16 bits (`FitsU16`; beyond it `patchJump` truncates,
+    finding 18). -/
+theorem runtime_error_location (cfg : CompCfg) (hcfg : Bc.CompCfgOk cfg) (n : Node) (cp : Compiled)
+    (hc : compileProgram cfg n = .ok cp) (hfit : Refine.FitsU16 cp.code) (c : Cfg) (fuel : Nat) (e : ErrClass)
+    (s' : VM) (hrun : run c (Refine.progOf cp) fuel = (.error e, s')) (he : e ≠ .fuel)
+    (P : Loc → Prop) (hn : n.AllLoc P) :
+    P (report (locTable 0 cp.code) s'.pp) ∨ (report (locTable 0 cp.code) s'.pp = {} ∧ cfg.cast ≠ none) := by
+  unfold run runOn at hrun
+  obtain ⟨s1, hst, hlt, hstep⟩ := loop_error fuel _ e s' hrun he
+  have hb := reachable_ip_is_boundary cfg hcfg n cp hc hfit c _ s1 rfl hst
+  have hsz : (Refine.progOf cp).code.size = lsize cp.code := by
+    simp [Refine.progOf, Compiled.bytes, Refine.encodeAll_length, lsize]
+  obtain ⟨pre, i, post, hcode, hpre⟩ := split_at_boundary cp.code s1.ip hb (by omega)
+  have hoff : OpcodeOffset cp.code s1.ip := ⟨i.loc, by rw [hcode, ← hpre]; exact locTable_at⟩
+  rw [failing_step_pp hstep]
+  exact error_location_is_a_node cfg n cp hc s1.ip hoff P hn
+
+/-- **Source to reported run-time location** (`expr.Eval`-style pipeline: lex, parse, compile without
+    cast, run): whatever fails at run time is reported at a location inside the source, at which the
+    snippet shows the first rune of the defining token of a node of the parsed tree. -/
+theorem eval_error_location_in_source (cc : CharClass) (hnl : cc.isSpace '\n' = true) (pcfg : Parser.Cfg)
+    (src : String) (toks : List Token) (root : Node) (cfg : CompCfg) (hcast : cfg.cast = none) (cp : Compiled)
+    (hl : Lex.lex cc LexTables.std src = .ok toks) (hp : Parser.parse pcfg toks = .ok root)
+    (hc : compileProgram cfg root = .ok cp) (hfit : Refine.FitsU16 cp.code) (c : Cfg) (fuel : Nat) (e : ErrClass)
+    (s' : VM) (hrun : run c (Refine.progOf cp) fuel = (.error e, s')) (he : e ≠ .fuel) :
+    ∃ ch, cc.isSpace ch = false ∧ PointsAt src.toList (report (locTable 0 cp.code) s'.pp) ch := by
+  have hcfg : Bc.CompCfgOk cfg := by intro t ht; rw [hcast] at ht; cases ht
+  rcases runtime_error_location cfg hcfg root cp hc hfit c fuel e s' hrun he _
+    (node_locations_in_source cc hnl pcfg src toks root hl hp) with h | ⟨_, h⟩
+  · exact h
+  · exact absurd hcast h
+
+/-- non-vacuity, and the rule at work: `1 / 0` (tokens at 1:0, 1:2, 1:4) compiles to `Push; Push; Divide`,
+    the run fails with `divzero` in the step at byte offset 6, and `Locations[6]` is 1:2 — the `/`. -/
+example :
+    let w : World := { call := fun _ _ => .ok .nil, regexMatch := fun _ _ => none, pow := fun a _ => a }
+    let c : Cfg := { world := w, env := .nil, budget := 1000, defects := Defects.none }
+    let tree : Node := .binary ⟨⟨1, 2⟩, .invalid⟩ "/" (.int ⟨⟨1, 0⟩, .invalid⟩ 1) (.int ⟨⟨1, 4⟩, .invalid⟩ 0)
+    (match compileProgram {} tree with
+     | .ok cp =>
+       (match (run c (Refine.progOf cp) 50).1 with | .error .divzero => true | _ => false) &&
+       ((run c (Refine.progOf cp) 50).2.pp == 6) && (report (locTable 0 cp.code) 6 == (⟨1, 2⟩ : Loc))
+     | .error _ => false) = true := by decide
+
+/-- what remains (`_goal`): the sharper statement that the reported location is that of the *innermost
+    failing node* — a sub-node `m` whose own evaluation by the language definition fails with the same
+    error class.  It needs the simulation of C01 (`Sim`) to carry the byte range of each node's code
+    through its error case ("the failing step's `pp` lies inside the fragment of the innermost failing
+    node").  Until then this is what the single-failure oracle of harness/c13_oracle.go checks on the
+    real code (16 run-time fault kinds, exact token expected). -/
+def runtime_error_innermost_goal : Prop :=
+  ∀ (cfg : CompCfg) (n : Node) (cp : Compiled) (c : Cfg), compileProgram cfg n = .ok cp → cfg.cast = none →
+    Refine.FitsU16 cp.code →
     ∀ (fuel : Nat) (e : ErrClass) (s' : VM), run c (Refine.progOf cp) fuel = (.error e, s') → e ≠ .fuel →
-      ∀ P : Loc → Prop, n.AllLoc P →
-        P (report (locTable 0 cp.code) s'.pp) ∨ (report (locTable 0 cp.code) s'.pp = {} ∧ cfg.cast ≠ none)
+      ∃ m ∈ Node.preorder n, m.loc = report (locTable 0 cp.code) s'.pp ∧
+        ∃ ctx σ, (Spec.eval (Refine.specOf c) ctx m σ).1 = .error e
 
 end ExprModel.C13
